@@ -233,6 +233,17 @@ let run (cols : string array) : string =
       let h = parse_table (if Array.length cols > 3 then cols.(3) else "") in
       let fuel = nat_of_int (4 * List.length text + 2000) in
       (try show_outcome (brun (fparse_of h) fuel l text) with Need k -> "NEED\t" ^ k)
+  | "canon" ->
+      (* is this text in the class of Engine/Factor.v (exec_factor)?  text = w ++ render crlf toks with aws w, tok_ok toks *)
+      let text = unhex cols.(1) in
+      let crlf = cols.(2) = "1" in
+      let toks = if Array.length cols > 3 && cols.(3) <> "" then
+          List.filter_map (fun e -> match String.split_on_char '|' e with
+            | [t; c] -> Some (unhex t, unhex c) | _ -> None) (String.split_on_char ';' cols.(3)) else [] in
+      let is_ws c = let i = int_of_n c in i = 10 || i = 13 || i = 32 in
+      let rec split acc l = match l with c :: r when is_ws c -> split (c :: acc) r | _ -> (List.rev acc, l) in
+      let (w, _) = split [] text in
+      if is_canonical text w crlf toks then "CANON\t1" else "CANON\t0"
   | "extract" ->
       (match extract_field_content (unhex cols.(1)) (unhex cols.(2)) with
        | None -> "NONE"
